@@ -454,6 +454,8 @@ def grun_class(T: Any) -> type:
             super().log(s)
             if s.startswith("@up "):
                 self.eng.fire("up")
+            elif s.startswith("@serve-exc "):
+                self.eng.fire("serve-exc")      # a serve_forever ended with an unexpected exception: no `up` will follow it
 
         def busy(self) -> bool:
             return self.eng.busy()
@@ -478,7 +480,10 @@ def grun_class(T: Any) -> type:
             eng = self.eng
             eng.register(i)
             if op.startswith("w:"):
-                hit = eng.wait_for([op[2:]], W_WAIT)
+                specs = [op[2:]]
+                if op[2:].split("#")[0] == "up":
+                    specs.append("serve-exc")       # (do not sit out the 3 s for a server that has just failed to start)
+                hit = eng.wait_for(specs, W_WAIT) and _spec_ok(eng.count, op[2:])
                 self.log(f"@w {i} {op[2:]} hit={int(hit)}")
                 return
             if op == "conn":
